@@ -278,7 +278,7 @@ SPECIAL = [
     'type A[T: int, *U, **P] = dict[T, U]\n', 'del a, b[c], d.e\nassert a, "é"\nraise E from c\n',
     # self-documenting f-string fields whose expression has gaps owned by operator nodes (two-word operators, unary, ternary)
     "x = f'{a is not b = }'\n", "x = f'{a not in b=}'\n", "x = f'{é is not ü = :>5} {c not in d = !r}'\n", "x = f'{a if b else c = }'\n",
-    "x = f'{not a = }' f'{- a=}'\n", "x = f'{a and b or c = }'\n", "x = f'{a < b <= c = }'\n", "x = f'{f(a, k = 1) = }'\n", "x = f'{a [ b : c ] = }'\n",
+    "x = f'{not a = }' f'{- a=}'\n", "x = f'''{a + b = !r\n}'''\n", "x = f'''{a + b = !s\n:>5}'''\n", "x = f'''é{\n a + b\n = !a\n}'''\n", "é = [a,\n b]; ü = f('üüü',\n a)\n", "x = f'{a and b or c = }'\n", "x = f'{a < b <= c = }'\n", "x = f'{f(a, k = 1) = }'\n", "x = f'{a [ b : c ] = }'\n",
     'class Shape(Base, metaclass=abc.ABCMeta,\n            *mixins): pass\n', 'class C(a, k=1,\n  *b, j=2,\n *c): pass\n', 'r = f(a, key=1,\n  *b, last=2,\n *c)\n',
 ]
 
@@ -315,7 +315,12 @@ def _gap_case(arg):
         elif ast.dump(new_tree) != ref_dump:
             continue        # not a trivia-preserving replacement (tokens merged)
         root = _mk_fst(src)
-        node = _innermost(root, ln, col, end_ln, end_col)
+        try:
+            node = _innermost(root, ln, col, end_ln, end_col)
+        except Exception as e:          # a location query on an unmodified tree raised: nothing can be edited through it
+            out.append({'case': {'f': 'C11.put_src_offset', 'tree': None}, 'impl': {'exc': 'loc query: ' + type(e).__name__}, 'src': src, 'call': [ln, col, end_ln, end_col],
+                        'edit': [new, ln, col, end_ln, end_col], 'kind': 'loc-query', 'oracle': 'raised', 'extra_edit': True})
+            continue
         tree, ids = util.ser_tree(root.a)
         put_lines = new.split('\n')
         a = [len(put_lines), ln, end_ln, util.byte_len(lines0[end_ln][:end_col]), util.byte_len(put_lines[-1]),
